@@ -147,6 +147,27 @@ _add(
     "apply_affixes contract",
 )
 _add("O20.4", _mk("parent_dir_nonempty", _pre_str("p", 5), _pre_str("p", 7, ALPHA), "parent_dir never empty, no trailing separator"), "parent_dir")
+for h in (2, 3):
+    _add(
+        f"O20.7.h{h}",
+        _mk(
+            "amend_sequence",
+            "len(p1) <= 3 and len(p2) <= 2 and all(c in '/sa' for c in p1 + p2)",
+            "len(p1) <= 3 and len(p2) <= 3 and all(c in '/.sa' for c in p1 + p2)",
+            "two successive amend(inp=...) calls: no announced input is swallowed by the client-side history",
+            here=h,
+            tq=600,
+            tt=3000,
+        ),
+        f"api.amend de-duplication is keyed by the translated path, HERE case {h}",
+        weight=4,
+    )
+_add(
+    "O20.6",
+    _mk("label_roundtrip", "len(c) <= 2 and len(w1) <= 1 and len(w2) <= 1", "len(c) <= 3 and len(w1) <= 2 and len(w2) <= 2", "Step.adjust_label / command_and_workdir round trip, also for a workdir containing the marker text"),
+    "step label <-> (command, workdir) round trip",
+    weight=2,
+)
 _add(
     "O20.5",
     _mk(
